@@ -86,8 +86,8 @@ func VerifC03_GetHead() {
 	verif_Assume(err == nil)
 
 	rt := &vRT{fn: func(req *http.Request) (*http.Response, error) { return vResp(200, wire), nil }}
-	s := &Syncer{client: &http.Client{Transport: rt}, rootURL: vURL("http://pub.example/ipni/v1/ad"), sync: &Sync{},
-		peerInfo: peer.AddrInfo{ID: k1.id}}
+	s := &Syncer{client: &http.Client{Transport: rt}, rootURL: vURL("http://pub.example/ipni/v1/ad"), sync: &Sync{authPeerID: verif_Bool("authServerPeerID")},
+		peerInfo: peer.AddrInfo{ID: k1.id}, plainHTTP: verif_Bool("plainHTTP")}
 	got, gerr := s.GetHead(context.Background())
 	verif_Reach("answered")
 
